@@ -89,6 +89,10 @@ def _gen_C14(rng, tier, seed):
     c["config"]["sweep_every"] = rng.choice([0, 0, 4, 8])
     if c["config"]["backend"] == "mem":
         c["ops"] = [o for o in c["ops"] if o["op"] != "reopen"]
+    elif rng.random() < 0.3:
+        # queries on the state a process finds after a dirty stop
+        c["ops"] = [o for o in c["ops"] if o["op"] != "reopen"][:12]
+        c["crash"] = {"sample": rng.choice([4, 8, 12])}
     return c
 
 
@@ -96,11 +100,11 @@ register(
     _Spec(
         "C14",
         _gen_C14,
-        lambda case: run_sequential(case, QQ.sweep_C14, prop="C14"),
+        QQ.run_C14,
         4000,
         100000,
         "exploration",
-        "seeded states (file back-end on SimDisk, or memory back-end) x every read-only entry point (~45 methods, present / absent / unknown arguments, valid and stale tokens, generators abandoned half-way); non-trivial when the state holds pages and webentities; distinct = distinct event digests",
+        "seeded states (file back-end on SimDisk, memory back-end, or - 30% of file runs - the states a process finds after a crash cut of the write log) x every read-only entry point (~45 methods, present / absent / unknown arguments, valid and stale tokens, generators abandoned half-way); non-trivial when the state holds pages and webentities; distinct = distinct event digests",
         "sequential-history + read-only call sweep",
         components_stub=STUBS,
         fault_kinds=["queries", "query_refused", "query_returned"],
